@@ -1076,6 +1076,8 @@ _F = 'chainables/io.py'
 _T = 'chainables/transform.py'
 _U = 'utils/iter_utils.py'
 VARIANTS = [
+    OK('recorded-position-in-two-steps', 'chainables/io.py',
+       "    start_index = self._index - self.config.start + self.config.state.start_index\n", "    read_in_shard = self._index - self.config.start\n    start_index = read_in_shard + self.config.state.start_index\n"),
     OK('skip-wrapper-yields-through-a-local', 'utils/iter_utils.py',
        "      yield next(it)\n", "      value = next(it)\n      yield value\n"),
     OK('sharded-iterable-restore-through-a-local', 'chainables/io.py',
